@@ -30,7 +30,10 @@ TReset == /\ IsEvent("reset")
           /\ wpc' = "idle" /\ wtask' = -1 /\ since' = 0 /\ stop' = FALSE /\ proc' = <<>> /\ everq' = {} /\ nputs' = 0
           /\ last' = Obs("-", "init", -1, "")
 
-TFgPut == /\ IsEvent("fg_put") /\ (\E q \in BOOLEAN : FgPut(q)) /\ Chk("put.id", Ev.id = last'.id) /\ Observed(Ev.obs)
+\* whether the put queued its frame is read from the logged queue (so that a diagnosis run follows one alternative)
+TFgPut == /\ IsEvent("fg_put")
+          /\ FgPut(\E i \in 1..Len(Ev.obs.queue) : Ev.obs.queue[i] = Ev.id)
+          /\ Chk("put.id", Ev.id = last'.id) /\ Observed(Ev.obs)
 TFgCommit == IsEvent("fg_commit") /\ FgCommit /\ Observed(Ev.obs)
 TFgSearch == IsEvent("fg_search") /\ FgSearch /\ Observed(Ev.obs)
 TFgDelete == /\ IsEvent("fg_delete")
